@@ -82,7 +82,9 @@ pub struct Interp {
     depth: usize,
     pub max_depth: usize,
     /// compound / field assignment: read the target side before (true) or after (false) the value
-    pub target_first: bool,
+    /// which assignment forms evaluate their right-hand side before their target (bit per form, see `form_bit`);
+    /// 0 = every form reads its target first
+    pub order_mask: u8,
     pub unstable_text: bool,
     /// evaluate global initialisers strictly in source order (C11 enumerates the orders itself)
     pub source_order: bool,
@@ -190,7 +192,7 @@ impl Interp {
             budget,
             depth: 0,
             max_depth: 60,
-            target_first: true,
+            order_mask: 0,
             unstable_text: false,
             source_order: false,
             fell_off_end: false,
@@ -810,7 +812,7 @@ impl Interp {
                 let new = match op {
                     None => self.eval(value, env)?,
                     Some(op) => {
-                        if self.target_first {
+                        if self.order_mask & form_bit(target, true) == 0 {
                             let cur = cell.borrow().clone().ok_or_else(|| End::ScopeError(format!("{:?} used before initialisation", n)))?;
                             let v = self.eval(value, env)?;
                             self.binop(op, &cur, &v)?
@@ -831,7 +833,7 @@ impl Interp {
                 Ok(())
             }
             Expr::Field(obj, f) => {
-                let (container, v) = if self.target_first {
+                let (container, v) = if self.order_mask & form_bit(target, op.is_some()) == 0 {
                     let c = self.eval(obj, env)?;
                     let cur = if op.is_some() { Some(self.get_field(&c, f)?) } else { None };
                     let v = self.eval(value, env)?;
@@ -937,9 +939,33 @@ pub fn run_in_source_order(p: &Program, budget: u64) -> Trace {
     Trace { out: it.out, end, unstable_text: it.unstable_text }
 }
 
+/// the assignment forms whose evaluation order the language does not fix: compound assignment to a variable,
+/// plain / compound assignment to a field of a value (`p.x`), plain / compound assignment through a longer chain
+pub fn form_bit(target: &Expr, compound: bool) -> u8 {
+    fn depth(e: &Expr) -> usize {
+        match e {
+            Expr::Field(o, _) => 1 + depth(o),
+            Expr::Paren(x) => depth(x),
+            _ => 0,
+        }
+    }
+    match (depth(target), compound) {
+        (0, _) => 1,
+        (1, false) => 2,
+        (1, true) => 4,
+        (_, false) => 8,
+        (_, true) => 16,
+    }
+}
+pub const ORDER_MASKS: u8 = 32;
+
 pub fn run(p: &Program, budget: u64, target_first: bool) -> Trace {
+    run_with_order(p, budget, if target_first { 0 } else { ORDER_MASKS - 1 })
+}
+
+pub fn run_with_order(p: &Program, budget: u64, order_mask: u8) -> Trace {
     let mut it = Interp::new(budget);
-    it.target_first = target_first;
+    it.order_mask = order_mask;
     let end = it.run_program(p);
     Trace { out: it.out, end, unstable_text: it.unstable_text }
 }
@@ -954,6 +980,18 @@ pub fn reference(p: &Program, budget: u64) -> (Trace, bool) {
     let b = run(p, budget, false);
     let ambiguous = a != b;
     (a, ambiguous)
+}
+
+/// the traces of every choice of evaluation order per assignment form (see `form_bit`), without repetitions
+pub fn reference_all_orders(p: &Program, budget: u64) -> Vec<Trace> {
+    let mut out: Vec<Trace> = Vec::new();
+    for mask in 0..ORDER_MASKS {
+        let t = run_with_order(p, budget, mask);
+        if !out.contains(&t) {
+            out.push(t);
+        }
+    }
+    out
 }
 
 fn has_target_sensitive_assign(p: &Program) -> bool {
